@@ -62,6 +62,19 @@ def invoke(c, r):
         for name, dflt in opt[:last + 1]:
             args.append(kw.get(name, dflt))
         return getattr(c, op)(*args)
+    if op == "copy_drop":
+        # the application made a shallow copy of the configured object (a view with other options, say), used it or not, and
+        # let it go: that is none of the original's business
+        import copy
+        import gc
+        d = copy.copy(c)
+        for name, value in (r.get("set") or {}).items():
+            setattr(d, name, value)
+        if r.get("use"):
+            d.get(r["use"])
+        del d
+        gc.collect()
+        return None
     if op == "reconfigure":
         # the application assigns public attributes (timeout, connect_timeout, ...) on the object - and on the per-server
         # clients of a hash client - at run time
